@@ -107,6 +107,7 @@ def run_check(prop, tier, seed, a, t0):
     covers_sat = canaries = 0
     checker_failure = []
     ledger_now = []
+    can_seen, can_ok = {}, {}
     for u in units:
         fentry = {"file": u.contract.file, "function": u.contract.qual, "case": u.case.name, "source_sha": u.src_sha,
                   "lines": u.lines, "paths": u.n_paths}
@@ -133,10 +134,10 @@ def run_check(prop, tier, seed, a, t0):
                     covers_sat += 1
                 continue
             if r.vc.kind == "canary":
-                if r.status == "canary-bad":
-                    checker_failure.append("contradictory hypotheses (canary proved): " + oid)
-                else:
+                can_seen[id(u)] = can_seen.get(id(u), 0) + 1
+                if r.status != "canary-bad":
                     canaries += 1
+                    can_ok[id(u)] = True
                 continue
             n_obl += 1
             nvc += 1
@@ -153,6 +154,9 @@ def run_check(prop, tier, seed, a, t0):
             else:
                 ok = False
                 undecided.append((oid, "solver answers: %s" % (r.answers,)))
+        if can_seen.get(id(u)) and not can_ok.get(id(u)):
+            checker_failure.append("contradictory hypotheses (`ensures False` provable on every normal exit): %s[%s]"
+                                   % (u.contract.qual, u.case.name))
         fentry["tier"] = "P" if ok else "P (obligations failed this run)"
         fentry["obligations"] = nvc
         functions.append(fentry)
@@ -296,6 +300,19 @@ def match_known(known, prop, key_text):
     return None
 
 
+_LEDGER = None
+
+
+def in_ledger(prop, oid):
+    global _LEDGER
+    if _LEDGER is None:
+        p = os.path.join(ROOT, "contracts", "ledger.json")
+        _LEDGER = json.load(open(p)) if os.path.exists(p) else {}
+    # the path suffix of an obligation id changes when control flow is edited: compare without it
+    names = {o.rsplit("/", 1)[0] for o in _LEDGER.get(prop, {}).get("obligations", [])}
+    return oid.rsplit("/", 1)[0] in names
+
+
 def handle_failed(prop, u, r, oid, known, violations, undecided, known_lines, tier):
     """a definite `sat` on an obligation: concretise the model, replay on the real code"""
     k = match_known(known, prop, oid)
@@ -309,10 +326,14 @@ def handle_failed(prop, u, r, oid, known, violations, undecided, known_lines, ti
     if k is not None:
         known_lines.append("KNOWN-FINDING: property=%s %s" % (prop, k["what"]))
         return
-    if not confirmed and r.vc.kind in INTERNAL:
-        undecided.append((oid, "internal obligation no longer provable (sat), no failing input found: "
-                               "invariant/measure may be stale for the changed code"))
+    if not confirmed and r.vc.kind in INTERNAL and not in_ledger(prop, oid):
+        # an internal obligation (invariant / measure / callee precondition) that was never proved on the committed tree:
+        # undecided, not a violation
+        undecided.append((oid, "internal obligation not provable (sat), no failing input found, and it is not in the "
+                               "committed ledger of proved obligations"))
         return
+    # a definite `sat` on an obligation that is proved on the committed tree (ledger): reported as a violation; without a
+    # replayable input the line ends with no-failing-input-found (the replay file carries the solver output)
     with open(os.path.join(ROOT, rel), "w") as f:
         json.dump(doc, f, indent=1, default=str)
     line = "VIOLATION property=%s replay=%s" % (prop, os.path.join(ROOT, rel))
